@@ -31,17 +31,17 @@ type gStep struct {
 }
 
 type gEvent struct {
-	Ev    string `json:"ev"`
-	T     int    `json:"t"`
-	I     int    `json:"i"`
-	R     string `json:"r"`
-	G     string `json:"g"`
-	Res   string `json:"res"`
-	Snap  string `json:"snap"`
-	Pred  string `json:"pred"`
-	Err   string `json:"err,omitempty"`
-	Panic string `json:"panic,omitempty"`
-	Keys  int    `json:"keys"`
+	Ev    string   `json:"ev"`
+	T     int      `json:"t"`
+	I     int      `json:"i"`
+	R     string   `json:"r"`
+	G     string   `json:"g"`
+	Res   string   `json:"res"`
+	Snap  string   `json:"snap"`
+	Pred  string   `json:"pred"`
+	Err   string   `json:"err,omitempty"`
+	Panic string   `json:"panic,omitempty"`
+	Keys  int      `json:"keys"`
 	Diff  []string `json:"diff,omitempty"`
 }
 
@@ -105,6 +105,7 @@ func (w *world) callOp(h func() ([]byte, error)) (res string, errs string, pan s
 func runBehaviour(t int, steps []gStep) []gEvent {
 	fx := routerByName(steps[0].R)
 	w := newRouterWorld(fx)
+	defer putSandbox(w.sb)
 	ids := map[string]string{"": "none"}
 	var evs []gEvent
 	evs = append(evs, gEvent{Ev: "reset", T: t})
